@@ -46,6 +46,10 @@ module Nat :
 
   val max : nat -> nat -> nat
 
+  val even : nat -> bool
+
+  val odd : nat -> bool
+
   val divmod : nat -> nat -> nat -> nat -> nat * nat
 
   val div : nat -> nat -> nat
@@ -312,6 +316,66 @@ val canon : term -> term
 
 val classify : n -> cchar
 
+val iter_app : nat -> term -> term -> term
+
+val church : nat -> term
+
+val scott : nat -> term
+
+val body2 : term -> term
+
+val parigot : nat -> term
+
+val stumpfu : nat -> term
+
+val bits_term : bool list -> term
+
+val bits_of : nat -> nat -> bool list
+
+val binary : nat -> term
+
+val tru_t : term
+
+val fls_t : term
+
+val bool_t : bool -> term
+
+val pair_t : term -> term -> term
+
+val none_t : term
+
+val some_t : term -> term
+
+val ok_t : term -> term
+
+val err_t : term -> term
+
+val tuple_t : term list -> term
+
+val pair_list : term list -> term
+
+val church_list_body : term list -> term
+
+val church_list : term list -> term
+
+val scott_list : term list -> term
+
+val parigot_list : term list -> term
+
+val count_apps : nat -> term -> nat option
+
+val dec_church : term -> nat option
+
+val dec_scott : nat -> term -> nat option
+
+val dec_parigot : nat -> term -> nat option
+
+val dec_stumpfu : nat -> term -> nat option
+
+val dec_bits : term -> nat option
+
+val dec_binary : term -> nat option
+
 type term_error =
 | NotVar
 | NotAbs
@@ -489,3 +553,406 @@ val upper_hex : nat -> str0
 val show_precedence_dbr : n -> term -> nat -> str0
 
 val debug : n -> term -> str0
+
+val repeat_fn : nat -> (term -> term) -> term -> term
+
+val into_church : nat -> term
+
+val into_scott : nat -> term
+
+val unabs2 : term -> term
+
+val into_parigot : nat -> term
+
+val into_stumpfu_from : nat -> nat -> term -> term
+
+val into_stumpfu : nat -> term
+
+val binstr_fuel : nat -> nat -> bool list -> bool list
+
+val binstr : nat -> bool list
+
+val into_binary : nat -> term
+
+type encoding =
+| Church
+| Scott
+| Parigot
+| StumpFu
+| Binary
+
+val tuple_macro : term -> term list -> term
+
+val pi_macro : nat -> nat -> term
+
+val into_signed : bool -> nat -> encoding -> term option
+
+val into_pair : term -> term -> term
+
+val into_option : term option -> term
+
+val into_result : (term, term) sum -> term
+
+val into_pair_list : term list -> term
+
+val into_church_list : term list -> term
+
+val into_scott_list : term list -> term
+
+val into_parigot_list : term list -> term
+
+val lc_combinators_I : term
+
+val lc_combinators_K : term
+
+val lc_combinators_S : term
+
+val lc_combinators_i : term
+
+val lc_combinators_B : term
+
+val lc_combinators_C : term
+
+val lc_combinators_W : term
+
+val lc_combinators_o : term
+
+val lc_combinators_O : term
+
+val lc_combinators_Y : term
+
+val lc_combinators_Z : term
+
+val lc_combinators_R : term
+
+val lc_combinators_T : term
+
+val lc_boolean_tru : term
+
+val lc_boolean_fls : term
+
+val lc_boolean_and : term
+
+val lc_boolean_or : term
+
+val lc_boolean_not : term
+
+val lc_boolean_xor : term
+
+val lc_boolean_nor : term
+
+val lc_boolean_xnor : term
+
+val lc_boolean_nand : term
+
+val lc_boolean_if_else : term
+
+val lc_boolean_imply : term
+
+val lc_pair_pair : term
+
+val lc_pair_fst : term
+
+val lc_pair_snd : term
+
+val lc_pair_uncurry : term
+
+val lc_pair_curry : term
+
+val lc_pair_swap : term
+
+val lc_option_none : term
+
+val lc_option_some : term
+
+val lc_option_is_none : term
+
+val lc_option_is_some : term
+
+val lc_option_map : term
+
+val lc_option_map_or : term
+
+val lc_option_unwrap_or : term
+
+val lc_option_and_then : term
+
+val lc_result_ok : term
+
+val lc_result_err : term
+
+val lc_result_is_ok : term
+
+val lc_result_is_err : term
+
+val lc_result_option_ok : term
+
+val lc_result_option_err : term
+
+val lc_result_unwrap_or : term
+
+val lc_result_map : term
+
+val lc_result_map_err : term
+
+val lc_result_and_then : term
+
+val lc_num_church_zero : term
+
+val lc_num_church_is_zero : term
+
+val lc_num_church_one : term
+
+val lc_num_church_succ : term
+
+val lc_num_church_pred : term
+
+val lc_num_church_add : term
+
+val lc_num_church_sub : term
+
+val lc_num_church_mul : term
+
+val lc_num_church_pow : term
+
+val lc_num_church_lt : term
+
+val lc_num_church_leq : term
+
+val lc_num_church_eq : term
+
+val lc_num_church_neq : term
+
+val lc_num_church_geq : term
+
+val lc_num_church_gt : term
+
+val lc_num_church_div : term
+
+val lc_num_church_quot : term
+
+val lc_num_church_rem : term
+
+val lc_num_church_fac : term
+
+val lc_num_church_min : term
+
+val lc_num_church_max : term
+
+val lc_num_church_shl : term
+
+val lc_num_church_shr : term
+
+val lc_num_church_is_even : term
+
+val lc_num_church_is_odd : term
+
+val lc_num_church_to_scott : term
+
+val lc_num_church_to_parigot : term
+
+val lc_num_church_to_stumpfu : term
+
+val lc_num_scott_zero : term
+
+val lc_num_scott_is_zero : term
+
+val lc_num_scott_one : term
+
+val lc_num_scott_succ : term
+
+val lc_num_scott_pred : term
+
+val lc_num_scott_add : term
+
+val lc_num_scott_mul : term
+
+val lc_num_scott_pow : term
+
+val lc_num_scott_to_church : term
+
+val lc_num_parigot_zero : term
+
+val lc_num_parigot_is_zero : term
+
+val lc_num_parigot_one : term
+
+val lc_num_parigot_succ : term
+
+val lc_num_parigot_pred : term
+
+val lc_num_parigot_add : term
+
+val lc_num_parigot_sub : term
+
+val lc_num_parigot_mul : term
+
+val lc_num_stumpfu_zero : term
+
+val lc_num_stumpfu_is_zero : term
+
+val lc_num_stumpfu_one : term
+
+val lc_num_stumpfu_succ : term
+
+val lc_num_stumpfu_pred : term
+
+val lc_num_stumpfu_add : term
+
+val lc_num_stumpfu_mul : term
+
+val lc_num_stumpfu_to_church : term
+
+val lc_num_stumpfu_to_scott : term
+
+val lc_num_stumpfu_to_parigot : term
+
+val lc_num_binary_b0 : term
+
+val lc_num_binary_b1 : term
+
+val lc_num_binary_zero : term
+
+val lc_num_binary_is_zero : term
+
+val lc_num_binary_one : term
+
+val lc_num_binary_succ : term
+
+val lc_num_binary_pred : term
+
+val lc_num_binary_lsb : term
+
+val lc_num_binary_shl0 : term
+
+val lc_num_binary_shl1 : term
+
+val lc_num_binary_strip : term
+
+val lc_num_signed_neg : term
+
+val lc_list_pair_nil : term
+
+val lc_list_pair_is_nil : term
+
+val lc_list_pair_cons : term
+
+val lc_list_pair_head : term
+
+val lc_list_pair_tail : term
+
+val lc_list_pair_length : term
+
+val lc_list_pair_index : term
+
+val lc_list_pair_reverse : term
+
+val lc_list_pair_list : term
+
+val lc_list_pair_append : term
+
+val lc_list_pair_map : term
+
+val lc_list_pair_foldl : term
+
+val lc_list_pair_foldr : term
+
+val lc_list_pair_filter : term
+
+val lc_list_pair_last : term
+
+val lc_list_pair_init : term
+
+val lc_list_pair_zip : term
+
+val lc_list_pair_zip_with : term
+
+val lc_list_pair_take : term
+
+val lc_list_pair_take_while : term
+
+val lc_list_pair_drop : term
+
+val lc_list_pair_drop_while : term
+
+val lc_list_pair_replicate : term
+
+val lc_list_church_nil : term
+
+val lc_list_church_is_nil : term
+
+val lc_list_church_cons : term
+
+val lc_list_church_head : term
+
+val lc_list_church_tail : term
+
+val lc_list_scott_nil : term
+
+val lc_list_scott_is_nil : term
+
+val lc_list_scott_cons : term
+
+val lc_list_scott_head : term
+
+val lc_list_scott_tail : term
+
+val lc_list_parigot_nil : term
+
+val lc_list_parigot_is_nil : term
+
+val lc_list_parigot_cons : term
+
+val lc_list_parigot_head : term
+
+val lc_list_parigot_tail : term
+
+val lc_num_signed_to_signed_church : term
+
+val lc_num_signed_simplify_church : term
+
+val lc_num_signed_modulus_church : term
+
+val lc_num_signed_add_church : term
+
+val lc_num_signed_sub_church : term
+
+val lc_num_signed_mul_church : term
+
+val lc_num_signed_to_signed_scott : term
+
+val lc_num_signed_simplify_scott : term
+
+val lc_num_signed_modulus_scott : term
+
+val lc_num_signed_add_scott : term
+
+val lc_num_signed_sub_scott : term
+
+val lc_num_signed_mul_scott : term
+
+val lc_num_signed_to_signed_parigot : term
+
+val lc_num_signed_simplify_parigot : term
+
+val lc_num_signed_modulus_parigot : term
+
+val lc_num_signed_add_parigot : term
+
+val lc_num_signed_sub_parigot : term
+
+val lc_num_signed_mul_parigot : term
+
+val lc_num_signed_to_signed_stumpfu : term
+
+val lc_num_signed_simplify_stumpfu : term
+
+val lc_num_signed_modulus_stumpfu : term
+
+val lc_num_signed_add_stumpfu : term
+
+val lc_num_signed_sub_stumpfu : term
+
+val lc_num_signed_mul_stumpfu : term
+
+val all_terms : term list
